@@ -564,6 +564,11 @@ func genRandomHistory(rd *hx.Rand, mode string, n int, queries int) string {
 		done += step
 		r.mth(0, done)
 		ops = append(ops, "r", "h")
+		if mode == "F" && rd.Chance(50) {
+			for j := 0; j < 1+rd.Intn(3); j++ {
+				ops = append(ops, "q"+strconv.Itoa(rd.Intn(2*done+3)))
+			}
+		}
 		if mode == "F" && rd.Chance(60) {
 			switch rd.Intn(4) {
 			case 0:
@@ -574,6 +579,9 @@ func genRandomHistory(rd *hx.Rand, mode string, n int, queries int) string {
 				ops = append(ops, "Rs"+strconv.Itoa(1+rd.Intn(3)))
 			default:
 				ops = append(ops, "R", "u")
+			}
+			if rd.Chance(70) {
+				ops = append(ops, "q"+strconv.Itoa(rd.Intn(2*done+3)))
 			}
 		}
 		for q := 0; q < queries; q++ {
@@ -905,6 +913,28 @@ func (x *exec) op(op string) (out string) {
 			x.flag("root-with-new-leaf", "GetRootWithNewLeaf != GetRootWithNewLeaves")
 		}
 		return "g:" + u.show(u.nameOf([32]byte(g)))
+	case strings.HasPrefix(op, "q"):
+		// raw GetHash(pos) on the file store (must not move the append cursor)
+		pos, err := strconv.Atoi(op[1:])
+		if err != nil || pos < 0 {
+			return "bad-op"
+		}
+		if x.mode != "F" {
+			return "q:na"
+		}
+		h, gerr := x.store.GetHash(uint32(pos))
+		if gerr != nil {
+			x.kinds["q:err"] = true
+			return "q:err"
+		}
+		x.kinds["q:ok"] = true
+		if x.refOK && pos < 2*x.n-popcount(x.n) {
+			want := x.r.layout(x.n)[pos]
+			if u.nameOf([32]byte(h)) != want {
+				x.flag("store-read-wrong", fmt.Sprintf("GetHash(%d) after %d appends is not the stored node", pos, x.n))
+			}
+		}
+		return "q:" + u.show(u.nameOf([32]byte(h)))
 	case strings.HasPrefix(op, "m"):
 		n, err := strconv.Atoi(op[1:])
 		if err != nil || x.store == nil {
@@ -1336,6 +1366,7 @@ func corpus() []string {
 		mkLine("N", u, []string{fmt.Sprintf("vc3,5,%d,%d,%s", r3, r5, u.shows(r.cons(3, 5)))}),
 		mkLine("M", u, append(appendsOps(0, 5, ""), "c0,5", "c0,1", "c0,0", "c5,5", "c3,5")),
 		mkLine("F", u, append(appendsOps(0, 5, ""), "c0,5", "c0,1", "c0,0", "c5,5", "c3,5", "Rs1", "Rt2", "a5", "r", "s", "i5,6", "R", "i0,6", "u")),
+		mkLine("F", u, append(appendsOps(0, 3, ""), "Rt3", "q0", "a3", "q1", "q6", "q9", "q50", "a4", "s", "r", "i4,5", "c3,5", "R", "q2", "a5", "s", "r", "i1,6")),
 		mkLine("N", u, append(appendsOps(0, 5, "r"), "i0,5", "c1,5", "ad5", "r", "h", "s", "u", "g6")),
 		mkLine("F", u, []string{"r", "h", "s", "i0,0", "i0,1", "c0,0", "c0,1", "c1,0", "R", "u", "g0", "ad0", "r", "i0,1", "c1,1", "m1"}),
 	}
